@@ -25,6 +25,10 @@ pub struct Case {
 /// Emits the `chk` and `csp` ops for one (list, request) pair.
 pub fn emit(out: &mut Out, case: &Case, engine: &Engine, rules: &[PRule], resources: &[Resource], q: &Req, what: &str) {
     crate::c11::emit_plines(out, &case.lines);
+    // the model is handed the request as the crate read it (normalised URL, host, party): the reading itself is compared with
+    // the URL model and with the reference public-suffix lookup
+    crate::c12::emit_url_case(out, &q.url);
+    crate::c12::party_oracle(out, &q.url, &q.src, &q.req);
     let res = engine.check_network_request(&q.req);
     let csp = engine.get_csp_directives(&q.req);
     let dumps: Vec<String> = rules.iter().map(|pr| dump_rule(&pr.f, rx_hint(&pr.f, &q.req))).collect();
